@@ -54,6 +54,12 @@ layouts (offsets, sizes, alignments) other than the usual; thresholds at 2^8, 2^
 documented return values and out-parameters of rarely used entry points; error paths that are only reachable in
 one state; operations on several objects in one call (swap, concat, share, slice) with unusual pairings.
 
+They also already cover: the release build next to the debug build (side effects inside assert() are found); clients
+compiled at -O2 with and without sanitizers (wrong const/pure/leaf attributes in headers are found); NDEBUG-dependent
+layouts; objects of 2^16, 2^20 and beyond 2^32 elements; every combination of optional out-parameters; re-use after
+clear; two objects with different node offsets/comparators/element sizes; comparator results of any magnitude;
+allocation failure at every position; other C dialects and system headers included first.  Find something else.
+
 Think about interactions that a test author is unlikely to combine: operation X immediately after operation Y in
 state Z; the second use of an object after it was cleared/moved/swapped; an argument that is legal but unusual; a
 callback that does something the documentation allows; two objects configured differently; values just past a
